@@ -39,6 +39,9 @@ def body(chk):
     ok = next(r for r in results if r["open"] == "ok")
     chk.sample({"plan": ok["case"]["k"], "file_pointer_records": ok["case"].get("nfp"), "attributes_compared": ok["n"]})
     chk.assumptions += ["creation date-time: the ISO-8601 attribute is compared as an instant with the 16-character field"]
+    from harness import sessioncheck
+
+    sessioncheck.standard(chk)
     chk.finish(rule="a case = one volume directory with every text field holding a token of a rotating class, 0..12 file pointers, "
                     "5 boundary timestamps; evaluations = attributes compared; distinct = (plan, pointer count)",
                exhaustive=False, extra={"leaves_compared": total})
